@@ -4,6 +4,7 @@ import (
 	"fmt"
 	"math"
 	"strings"
+	"unicode/utf8"
 
 	"github.com/ChrisTrenkamp/xsel/node"
 	"github.com/ChrisTrenkamp/xsel/store"
@@ -302,11 +303,11 @@ func clampIndex(f float64, n int) int {
 }
 
 func stringLength0(context Context, args ...Result) (Result, error) {
-	return Number(len(context.Result().String())), nil
+	return Number(utf8.RuneCountInString(context.Result().String())), nil
 }
 
 func stringLength1(context Context, args ...Result) (Result, error) {
-	return Number(len(args[0].String())), nil
+	return Number(utf8.RuneCountInString(args[0].String())), nil
 }
 
 func normalizeSpace0(context Context, args ...Result) (Result, error) {
